@@ -329,6 +329,16 @@ def exec_case(ck, exe, drv, st, case):
                ['_CON%d_' % (i + 1) if i < nalg else '_LCON%d_' % (i - nalg + 1) for i in range(ncon)],
                ['_OBJ%d_' % (i + 1) for i in range(min(nobj, 1))])     # objno=1: only the first objective is delivered
     st.inc('sources-from=' + src_kind)
+    if exp is not None:      # arms of the NameProvider / readNamesModel / itemNamesModel taken by this case
+        evs_, ecs_, eos_ = exp
+        for cond, arm in ((nobj == 0, 'no-objective'), (multi, 'multiobj'), (objno == 2, 'objno=2'), (ndv > 0, 'defined-variables'),
+                          (any(x.startswith('_svar[') for x in evs_), 'generic-_svar'), (any(x.startswith('_scon[') for x in ecs_), 'generic-_scon'),
+                          (any(x.startswith('_slogcon[') for x in ecs_), 'generic-_slogcon'), (any(x.startswith('_sobj[') for x in eos_), 'generic-_sobj'),
+                          (any(x.startswith('_LCON') for x in ecs_), 'item-_LCON'), (src_kind == 'item_name', 'item-names'),
+                          ('crlf' in variant and mode in (1, 2), 'crlf-file'), (mode == 1 and col is None and row is not None, 'mode1-row-only'),
+                          (mode == 1 and row is None and col is not None, 'mode1-col-only')):
+            if cond:
+                st.inc('arm:np:' + arm)
     st.inc('mode=%d' % mode)
     st.inc('files=' + variant)
     st.inc('scheme=' + g.scheme)
@@ -503,6 +513,7 @@ def exec_case(ck, exe, drv, st, case):
         out.append(('model:bad-op', 'the Lean driver cannot interpret %r' % (bad[0],), replay, False))
         return out + [(sg + ':unclassified', w, rp, True) for sg, w, rp in pending]
     runinfo = dict(kv.split('=') for kv in res[-1].split()[1:])
+    count_arms(st, runinfo)
     q = ['var %d' % G.cell('dest_vars()', i) for i in range(len(vnames))]
     q += ['var %d' % G.cell('dest_objs()', i) for i in range(len(objs))]
     conkeys = sorted(G.con_final)
@@ -578,6 +589,170 @@ def exec_case(ck, exe, drv, st, case):
             if len(ck.cov.setdefault('graph_hypothesis_failures', [])) < 5:
                 ck.cov['graph_hypothesis_failures'].append({'case': idx, 'hyps': hyps, 'options': opts, 'accept': ','.join(accept)})
     return out
+
+
+ARM_NAMES = ['copy:stores-first-copy', 'copy:stores-counted-copy', 'copy:target-already-named', 'distr:stores-first-copy',
+             'distr:stores-counted-copy', 'distr:target-already-named', 'sgive:stores', 'sgive:target-already-named']
+
+
+def count_arms(st, runinfo):
+    for nm, v in zip(ARM_NAMES, (runinfo.get('arms') or '').split(',')):
+        if v.isdigit():
+            st.inc('arm:' + nm, int(v))
+
+
+# ------------------------------------------------------------------ direct link-level stage (harness/h_links.cc)
+def link_scenario(rng):
+    """random node sizes, initial names and a random sequence of AddEntry calls (incl. consecutive/extendable ones,
+    interleavings, reads of unnamed cells, writes into named cells)"""
+    nn = rng.rint(6, 8)
+    sizes = [rng.rint(1, 4), rng.rint(1, 4), rng.rint(0, 2), rng.rint(3, 8), rng.rint(2, 5), rng.rint(2, 5)] + [rng.rint(1, 6) for _ in range(nn - 6)]
+    base = ['x', 'c', 'o']
+    adv = rng.chance(1, 4)
+    src = []
+    for k in range(3):
+        cnt = max(0, sizes[k] + rng.choice([0, 0, 0, -1, 1]))
+        names = ['%s%d' % (base[k], i + 1) for i in range(cnt)]
+        if adv and cnt > 1 and rng.chance(1, 2):
+            names[-1] = names[0] + rng.choice(['_2_', '_slk_', '_3__2_'])
+        src.append(names)
+    presets = []
+    for _ in range(rng.below(3)):
+        n = rng.rint(3, nn - 1)
+        cand = (n, rng.below(sizes[n]), rng.choice(['SOS1_1_', 'SOS2_-1_', 'p', 'x1', 'c1_2_']))
+        if not any(pn == cand[0] and pi == cand[1] for pn, pi, _ in presets):
+            presets.append(cand)
+    cmds = []
+    last = None
+    for _ in range(rng.rint(3, 14)):
+        k = rng.below(12)
+        if last is not None and rng.chance(1, 3):
+            # try to continue the previous entry (extendable ranges)
+            kind = last[0]
+            if kind == 'copy':
+                _, l, sn, sb, dn, db, ln = last
+                ln2 = rng.rint(1, 2)
+                if sb + ln + ln2 <= sizes[sn] and db + ln + ln2 <= sizes[dn]:
+                    last = ('copy', l, sn, sb + ln, dn, db + ln, ln2); cmds.append(last); continue
+            elif kind == 'o2m':
+                _, sn, si, dn, db, dl = last
+                if db + dl + 1 <= sizes[dn]:
+                    last = ('o2m', sn, si, dn, db + dl, 1); cmds.append(last); continue
+            elif kind == 'm2o':
+                _, sn, sb, sl, dn, di = last
+                if sb + sl + 1 <= sizes[sn]:
+                    last = ('m2o', sn, sb + sl, 1, dn, di); cmds.append(last); continue
+        sn = rng.below(nn)
+        dn = rng.rint(3, nn - 1)
+        if sizes[sn] == 0:
+            continue
+        if k < 4:
+            ln = rng.rint(1, min(2, sizes[sn], sizes[dn]))
+            last = ('copy', rng.below(2), sn, rng.below(sizes[sn] - ln + 1), dn, rng.below(sizes[dn] - ln + 1), ln)
+        elif k < 8:
+            dl = rng.rint(1, min(3, sizes[dn]))
+            last = ('o2m', sn, rng.below(sizes[sn]), dn, rng.below(sizes[dn] - dl + 1), dl)
+        elif k == 8:
+            sl = rng.rint(1, min(3, sizes[sn]))
+            last = ('m2o', sn, rng.below(sizes[sn] - sl + 1), sl, dn, rng.below(sizes[dn]))
+        elif k == 9:
+            sl = rng.rint(1, min(2, sizes[sn])); dl = rng.rint(1, min(2, sizes[dn]))
+            last = ('m2m', sn, rng.below(sizes[sn] - sl + 1), sl, dn, rng.below(sizes[dn] - dl + 1), dl)
+        else:
+            last = ('slack', rng.below(sizes[4]), rng.below(sizes[5]), rng.below(sizes[3]))
+        cmds.append(last)
+    return sizes, src, presets, cmds
+
+
+def stage_links(ck, drv, st, rng, n, cov=False):
+    fl = ['-O0', '-g', '--coverage'] if cov else ['-O1', '-g', '-fsanitize=address,undefined', '-fno-sanitize-recover=all']
+    h = ck.objects([os.path.join(VERIF, 'harness', 'h_links.cc')], flags=fl, tag='c19')
+    exe = ck.link('h_links', h + ck.libmp_objects(flags=tuple(fl)), flags=['--coverage'] if cov else ['-fsanitize=address,undefined'])
+    ck.log('h_links built')
+    scen = [link_scenario(rng) for _ in range(n)]
+    inp = []
+    for sizes, src, presets, cmds in scen:
+        inp.append('nodes ' + ' '.join(map(str, sizes)))
+        for k in range(3):
+            inp.append('src %d %s' % (k, ' '.join(hx(x) for x in src[k])))
+        for nnode, i, nm in presets:
+            inp.append('preset %d %d %s' % (nnode, i, hx(nm)))
+        for c in cmds:
+            inp.append(' '.join(map(str, c)))
+        inp.append('run')
+    p = subprocess.run([exe], input='\n'.join(inp) + '\n', capture_output=True, text=True, env=dict(os.environ, ASAN_OPTIONS='detect_leaks=0'), timeout=900)
+    outl = [l for l in p.stdout.split('\n') if l.startswith('cells')]
+    if p.returncode != 0 or len(outl) != len(scen):
+        ck.add_violation('links:harness-died', 'harness/h_links died (rc=%r) after %d of %d scenarios: %s' % (p.returncode, len(outl), len(scen), p.stderr[-400:]),
+                         {'scenario': scen[len(outl)] if len(outl) < len(scen) else None}, found_input=True)
+    LINKID = {'o2m': 2, 'm2o': 3, 'm2m': 4, 'slack': 5}
+    for (sizes, src, presets, cmds), real in zip(scen, outl):
+        st.inc('links:scenarios')
+        bases = [sum(sizes[:i]) for i in range(len(sizes))]
+        L = ['reset', 'bases ' + ' '.join(map(str, bases))]
+        roots = []
+        for k in range(3):
+            for i, nm in enumerate(src[k][:sizes[k]]):
+                L.append('src %d %s' % (bases[k] + i, hx(nm)))
+                roots.append(nm)
+        for nnode, i, nm in presets:
+            L.append('src %d %s' % (bases[nnode] + i, hx(nm)))
+            roots.append(nm)
+        # a later preset of the same cell wins in the harness as well (plain assignment into an empty VCString keeps the first!)
+        for c in cmds:
+            st.inc('links:' + c[0])
+            if c[0] == 'copy':
+                L.append('acopy %d %d %d %d %d %d' % c[1:])
+            elif c[0] == 'o2m':
+                L.append('am2m 2 %d %d 1 %d %d %d' % c[1:])
+            elif c[0] == 'm2o':
+                L.append('am2m 3 %d %d %d %d %d 1' % c[1:])
+            elif c[0] == 'm2m':
+                L.append('am2m 4 %d %d %d %d %d %d' % c[1:])
+            else:
+                L.append('aslack 5 4 %d 5 %d 3 %d' % c[1:])
+        L += ['sched', 'run']
+        res = drv.many(L)
+        if any(a == 'bad-op' for a in res):
+            ck.add_violation('model:bad-op', 'links stage: Lean driver rejected %r' % ([l for l, a in zip(L, res) if a == 'bad-op'][:2],), {'lines': L}, found_input=False)
+            continue
+        runinfo = dict(kv.split('=') for kv in res[-1].split()[1:])
+        count_arms(st, runinfo)
+        st.inc('links:sched-entries', int(res[-2].split('=')[1]))
+        st.inc('links:added-entries', len(cmds))
+        ncell = sum(sizes)
+        q = ['con %d' % c for c in range(ncell)] + ['var %d' % (bases[3] + i) for i in range(sizes[3])]
+        got = drv.many(q)
+        cells_part, tv_part = real.split(' | tvars')
+        realcells = []
+        for tok in cells_part.split()[1:]:
+            node, vals = tok.split(':')
+            realcells += [v for v in vals.split(',')] if vals else []
+        realtv = [v for v in tv_part.strip().split(',')] if tv_part.strip() else []
+        st.inc('links:cells', len(q))
+        if realcells + realtv != got:
+            diffs = [(i, a, b) for i, (a, b) in enumerate(zip(realcells + realtv, got)) if a != b]
+            ck.add_violation('model:link-level-names-differ',
+                             'direct link-level run: real value-presolver names differ from the Lean schedule/presolve model in %d cells (first: cell %r real %r model %r)' % (
+                                 len(diffs), diffs[0][0] if diffs else '?', unhx(diffs[0][1]) if diffs else '?', unhx(diffs[0][2]) if diffs else '?'),
+                             {'sizes': sizes, 'src': src, 'presets': presets, 'cmds': cmds, 'real': real, 'model': got, 'harness': 'harness/h_links.cc'}, found_input=False)
+            continue
+        # theorem consequences on the real names of the target variables (node 3)
+        D = [bases[3] + i for i in range(sizes[3])]
+        dinfo = dict(kv.split('=') for kv in drv.ask('dvars ' + ' '.join(map(str, D))).split())
+        sf = drv.ask('sf ' + ' '.join(hx(x) for x in roots)) == '1' and all(roots)
+        hyp = (runinfo.get('wellfed') == '1' and runinfo.get('sib') == '1' and runinfo.get('closed') == '1' and runinfo.get('noclash') == '1'
+               and dinfo.get('belowfree') == '1' and dinfo.get('uncounted') == '1' and sf)
+        st.inc('links:hyps-hold=%d' % hyp)
+        names = [unhx(v) for v in realtv]
+        named = [x for x in names if x]
+        if hyp and len(set(named)) != len(named):
+            ck.add_violation('model:theorem-contradicted', 'link-level scenario: all hypotheses of C19_unique_vars_partial hold but target variables share a name: %r' % (names,),
+                             {'sizes': sizes, 'src': src, 'presets': presets, 'cmds': cmds}, found_input=False)
+        if runinfo.get('topo') == '1' and dinfo.get('covered') == '1' and '' in names:
+            ck.add_violation('model:theorem-contradicted', 'link-level scenario: topoB and coveredB hold but a target variable is unnamed: %r' % (names,),
+                             {'sizes': sizes, 'src': src, 'presets': presets, 'cmds': cmds}, found_input=False)
+    return len(scen)
 
 
 # ------------------------------------------------------------------ NameProvider stage
@@ -721,6 +896,8 @@ def run(ck):
     rng = nlgen.Rng(ck.seed * 7919 + 19)
     n_np = stage_nameprovider(ck, drv, st, rng, workdir, 150 if ck.tier == 'quick' else 1500, cov=cov)
     ck.log('NameProvider stage: %d files' % n_np)
+    n_lk = stage_links(ck, drv, st, rng, 400 if ck.tier == 'quick' else 4000, cov=cov)
+    ck.log('link-level stage: %d scenarios' % n_lk)
     stage_counterexamples(ck, exe, st, workdir)
     ncases = 1200 if ck.tier == 'quick' else 12000
     found = {}
@@ -760,6 +937,15 @@ def run(ck):
                                 'nameprovider_files': n_np, 'lean_driver_ops': drv.n}
     ck.cov['unique_theorem_applicability'] = {'runs_where_all_hypotheses_hold': d.get('theorem-applies', 0),
                                               'runs_where_some_hypothesis_fails': d.get('theorem-not-applicable', 0)}
+    try:
+        cj = json.load(open(os.path.join(VERIF, 'design_notes', 'coverage', 'C19.json')))
+        ck.cov['anchor_line_cov'] = cj['anchor_line_cov']
+        ck.cov['anchor_branch_cov'] = cj['anchor_branch_cov']
+        ck.cov['mechanism_line_cov'] = cj['mechanism_line_cov']
+        ck.cov['mechanism_branch_cov'] = cj['mechanism_branch_cov']
+        ck.cov['coverage_note'] = 'gcov of anchors.files under the quick-tier stream, last VERIF_COVERAGE=1 run (seed %s); see design_notes/coverage/C19.md' % cj.get('seed')
+    except Exception:
+        pass
     ck.level = 'proof'
     ck.notes.append('partial: uniqueness and non-emptiness hold only under decidable hypotheses evaluated per run; the full-strength property is refuted by three proved counterexamples replayed on the real driver (open known findings)')
     ck.assumptions += [
